@@ -191,6 +191,14 @@ impl<T> GenericPurlBuilder<T> {
     where
         T: PurlShape,
     {
+        #[cfg(purl_verif)]
+        if !crate::verif_trace::active(crate::verif_trace::Hook::Build) {
+            let before = crate::verif_trace::builder_snapshot(&self.package_type, &self.parts);
+            let r = crate::verif_trace::inside(crate::verif_trace::Hook::Build, || self.build());
+            crate::verif_trace::log_build(&before, &r);
+            return r;
+        }
+
         self.package_type.finish(&mut self.parts)?;
 
         if self.parts.name.is_empty() {
